@@ -62,10 +62,100 @@ def rebuild(schema_text, members, order=None, extra=()):
     return buf.getvalue()
 
 
+def npz_semantic(rng, content):
+    """a well-formed .npz (valid zip, valid .npy entries, valid CRCs) whose arrays are inconsistent with one another"""
+    import numpy as np
+
+    with np.load(io.BytesIO(content), allow_pickle=False) as z:
+        arrs = {k: z[k] for k in z.files}
+    k = rng.choice(["indices-huge", "indices-negative", "indptr-broken", "shape-small", "shape-huge", "data-short", "format", "dtype", "drop-key", "offsets"])
+    if k == "indices-huge" and "indices" in arrs:
+        arrs["indices"] = arrs["indices"] + rng.choice([10**6, 2**31 - 2, 10**12])
+    elif k == "indices-negative" and "indices" in arrs:
+        arrs["indices"] = -arrs["indices"] - 1
+    elif k == "indptr-broken" and "indptr" in arrs:
+        a = arrs["indptr"].copy()
+        if a.size:
+            a[-1] = rng.choice([10**6, -5, 0])
+            if a.size > 2:
+                a[1] = a[-1] + 7
+        arrs["indptr"] = a
+    elif k == "shape-small" and "shape" in arrs:
+        arrs["shape"] = np.array([1] * len(arrs["shape"]))
+    elif k == "shape-huge" and "shape" in arrs:
+        arrs["shape"] = np.array([2**40] * len(arrs["shape"]))
+    elif k == "data-short" and "data" in arrs:
+        arrs["data"] = arrs["data"][: max(0, arrs["data"].shape[0] // 2)]
+    elif k == "format" and "format" in arrs:
+        arrs["format"] = np.array(rng.choice(["csr", "csc", "coo", "bsr", "dia", "xyz", ""]).encode())
+    elif k == "dtype":
+        kk = rng.choice(sorted(arrs))
+        try:
+            arrs[kk] = arrs[kk].astype(rng.choice(["float32", "int8", "complex64", "<U3", "bool"]))
+        except Exception:
+            pass
+    elif k == "drop-key" and arrs:
+        del arrs[rng.choice(sorted(arrs))]
+    elif k == "offsets" and "offsets" in arrs:
+        arrs["offsets"] = arrs["offsets"] * 10**6
+    buf = io.BytesIO()
+    (np.savez_compressed if rng.random() < 0.5 else np.savez)(buf, **arrs)
+    return buf.getvalue(), k
+
+
+def npy_semantic(rng, content):
+    """a .npy member with a well-formed header that lies about its data"""
+    import numpy as np
+
+    a = np.load(io.BytesIO(content), allow_pickle=False)
+    k = rng.choice(["shape-bigger", "fortran", "dtype", "object-pickle", "empty", "huge-shape", "structured"])
+    buf = io.BytesIO()
+    if k in ("shape-bigger", "huge-shape"):
+        np.save(buf, a)
+        raw = bytearray(buf.getvalue())
+        hdr_end = raw.index(b"\n", 10) + 1
+        header = raw[10:hdr_end].decode("latin1")
+        new_shape = "(%d, %d)" % ((a.size + 5, 3) if k == "shape-bigger" else (2**31, 2**31))
+        import re
+
+        new_header = re.sub(r"'shape': \([^)]*\)", "'shape': " + new_shape, header)
+        new_header = new_header[: len(header) - 1].ljust(len(header) - 1)[: len(header) - 1] + "\n"
+        if len(new_header) == len(header):
+            raw[10:hdr_end] = new_header.encode("latin1")
+        return bytes(raw), k
+    if k == "fortran":
+        np.save(buf, np.asfortranarray(a.reshape(-1, 1) if a.ndim < 2 else a.T))
+    elif k == "dtype":
+        try:
+            np.save(buf, a.astype(rng.choice(["complex128", "int8", "<U5", "bool", ">f4"])))
+        except Exception:
+            np.save(buf, a)
+    elif k == "object-pickle":
+        o = np.empty(2, dtype=object)
+        o[0], o[1] = "x", [1, 2]
+        np.save(buf, o, allow_pickle=True)
+    elif k == "empty":
+        np.save(buf, a[:0])
+    else:
+        np.save(buf, np.zeros(2, dtype=[("x", "i4"), ("y", "f8")]))
+    return buf.getvalue(), k
+
+
 def mutate_members(rng, schema, members):
     m = dict(members)
     kind = rng.choice(["drop", "extra", "garbage", "truncate-member", "swap-contents", "no-schema", "schema-not-json", "dup-name",
-                       "empty-member", "extra-schema"])
+                       "empty-member", "extra-schema", "npz-semantic", "npz-semantic", "npy-semantic", "npy-semantic"])
+    if kind in ("npz-semantic", "npy-semantic"):
+        ext = ".npz" if kind == "npz-semantic" else ".npy"
+        cands = [k for k in sorted(m) if k.endswith(ext)]
+        if cands:
+            k = rng.choice(cands)
+            try:
+                m[k], sub = (npz_semantic if ext == ".npz" else npy_semantic)(rng, m[k])
+                return rebuild(json.dumps(schema), m), f"members:{kind}:{sub}"
+            except Exception:
+                pass
+        kind = "garbage"
     text = json.dumps(schema)
     extra = []
     if kind == "drop" and m:
@@ -106,6 +196,25 @@ def mutate_members(rng, schema, members):
 JUNK = [None, True, False, 0, -1, 1.5, 10**30, "", "x", "schema.json", "../../etc/passwd", [], [1], {}, {"a": 1}, "NaN", 1e308]
 
 
+_TBL = None
+
+
+def TRUSTED_BY_LOADER():
+    global _TBL
+    if _TBL is None:
+        from ..common import VERIF
+
+        try:
+            per_kind = json.loads((VERIF / "generated" / "trust.json").read_text())["per_kind"]
+        except Exception:
+            per_kind = {}
+        _TBL = {}
+        for k, names in per_kind.items():
+            _TBL.setdefault(k.split("@")[0], [])
+            _TBL[k.split("@")[0]] = sorted(set(_TBL[k.split("@")[0]]) | set(names))
+    return _TBL
+
+
 def all_states(schema):
     out = []
     walk_states(schema, lambda st, path: out.append((st, path)))
@@ -116,7 +225,7 @@ def mutate_schema(rng, schema, members):
     s = copy.deepcopy(schema)
     states = all_states(s)
     kind = rng.choice(["retype", "drop-key", "repeat-id", "cross-id", "cycle", "deep", "wrong-member", "loader", "protocol", "shape",
-                       "retype", "drop-key", "widen", "names", "evil-sharing"])
+                       "retype", "drop-key", "widen", "names", "evil-sharing", "swap-trusted-class", "swap-trusted-class"])
     st, path = rng.choice(states)
     if kind == "retype":
         keys = [k for k in st]
@@ -171,6 +280,12 @@ def mutate_schema(rng, schema, members):
     elif kind == "names":
         st["__module__"] = rng.choice(["", ".", "..", "nonexistent_module_xyz", "numpy..core", "a b", 3, None, "numpy", "builtins"])
         st["__class__"] = rng.choice(["", "__class__", "no_such_attr", "a.b", 3, None, "ndarray", "object"])
+    elif kind == "swap-trusted-class":
+        # another name the same loader trusts by default: passes the audit, reaches construct with a class the data was not made for
+        names = TRUSTED_BY_LOADER().get(str(st.get("__loader__")), [])
+        if names:
+            mod, _, cls = rng.choice(names).rpartition(".")
+            st["__module__"], st["__class__"] = mod, cls
     elif kind == "evil-sharing":
         # n nested two-element lists whose second element re-uses the first's id (bounded depth: the cost family is measured separately)
         inner = {"__class__": "int", "__module__": "builtins", "__loader__": "JsonNode", "content": "1", "is_json": True, "__id__": 5 * 10**8}
@@ -244,6 +359,19 @@ def run(ctx):
             data = dumps(obj)
             schema, members, _ = valuecheck.archive_parts(data)
             bases.append((name, data, schema, members))
+        except Exception:
+            pass
+    import numpy as _np
+    import scipy.sparse as _sp
+
+    for name, obj in [("sparse-csr", _sp.csr_matrix(_np.eye(4) * 2)), ("sparse-csc", _sp.csc_matrix(_np.arange(12.0).reshape(3, 4))),
+                      ("sparse-mixed", {"a": _sp.coo_matrix(_np.eye(3)), "b": [_sp.bsr_matrix(_np.eye(4)), _sp.dia_matrix(_np.eye(3))], "c": _sp.csr_array(_np.eye(2))}),
+                      ("arrays-mixed", [_np.arange(6).reshape(2, 3), _np.asfortranarray(_np.arange(6.0).reshape(2, 3)), _np.array(["a", "bc"]), _np.ma.MaskedArray([1, 2], [0, 1])])]:
+        try:
+            data = dumps(obj)
+            schema, members, _ = valuecheck.archive_parts(data)
+            for _ in range(3):
+                bases.append((name, data, schema, members))
         except Exception:
             pass
     for c in res["cases"][: ctx.budget(40, 400)]:
